@@ -154,7 +154,7 @@ func addField(e *zerolog.Event, name, vc string, i int) (*zerolog.Event, interfa
 	case "time-unix":
 		return e.Int64(name, 981173106), json.Number("981173106")
 	case "msg":
-		v := []string{"hello", "hello world", "m\"q"}[i%3]
+		v := []string{"hello", "hello world", "m\"q", " ", "\t"}[i%5]
 		return e.Str(name, v), v
 	case "caller":
 		return e.Str(name, "/nonexistent/dir/file.go:12"), "/nonexistent/dir/file.go:12"
